@@ -15,9 +15,13 @@ import json
 import os
 import random
 import shutil
+import signal
 import sqlite3
+import subprocess
+import sys
 import tempfile
 import time
+from collections.abc import Awaitable, Callable
 from dataclasses import dataclass
 from datetime import UTC, datetime
 from pathlib import Path
@@ -197,9 +201,18 @@ def build_request(step: dict[str, Any], last_seed: bytes | None) -> service.UDSR
     return service.UDSRequest.parse_dynamic(bytes.fromhex(step["pdu"]))
 
 
-async def record_run(db: Path, run: dict[str, Any]) -> dict[str, Any]:
+Hook = Callable[[], Awaitable[None]]
+
+
+async def record_run(db: Path, run: dict[str, Any], at_step: dict[int, Hook] | None = None,
+                     keep: bool = False) -> dict[str, Any]:
     """One gallia run: a fresh ECU client with a DBHandler logs every exchange of
-    run["steps"] against run["peer"] into `db` (appending to whatever is there)."""
+    run["steps"] against run["peer"] into `db` (appending to whatever is there).
+    `at_step[i]` is awaited before step i is sent (environment events of the storage
+    family: somebody else opens the database while the scan is running).  `keep`: the
+    recorder does NOT disconnect (a scan that is still running / a recorder that dies
+    without a clean shutdown); every exchange is committed before this returns and the
+    connected handler is handed back as rec["handler"]."""
     peer = make_peer(run["peer"])
     await peer.setup()
     tr = InProcTransport(peer, run["url"])
@@ -233,6 +246,8 @@ async def record_run(db: Path, run: dict[str, Any]) -> dict[str, Any]:
         reconn = set(run.get("reconn", []))
         outcomes = []
         for i, step in enumerate(run["steps"]):
+            if at_step and i in at_step:
+                await at_step[i]()
             if i in reconn:
                 await ecu.reconnect()  # e.g. what a scanner does after a transport hiccup; the ECU is untouched
             if i in oob:
@@ -251,10 +266,72 @@ async def record_run(db: Path, run: dict[str, Any]) -> dict[str, Any]:
                 await pinger
             except BaseException:  # noqa: BLE001
                 pass
+        if keep and not await committed(db, scan_run, len(tr.wire)):
+            keep = False  # this recorder commits later than per exchange: let it finish the ordinary way
+    except BaseException:
+        keep = False
+        raise
     finally:
         InProcTransport._live.pop(str(tr.target), None)
-        await h.disconnect()
-    return {"scan_run": scan_run, "wire": tr.wire, "outcomes": outcomes}
+        if not keep:
+            await h.disconnect()
+    rec = {"scan_run": scan_run, "wire": tr.wire, "outcomes": outcomes, "kept": keep}
+    if keep:
+        rec["handler"] = h
+    return rec
+
+
+async def committed(db: Path, scan_run: int | None, n: int, patience: float = 5.0) -> bool:
+    """Wait until the `n` exchanges of `scan_run` are committed (DBHandler writes them from a queue), as seen
+    by an ordinary second connection: that is what "recorded into the database" means while the recorder is
+    still connected.  Only public behaviour is used (no handler internals).  False: not within `patience`
+    (a recorder which commits in batches / at disconnect is legitimate: then there is nothing recorded yet that
+    could be replayed, and the case degrades to an ordinary, cleanly closed recording)."""
+    deadline = time.monotonic() + patience
+    while True:
+        con = sqlite3.connect(db)
+        try:
+            have = con.execute("SELECT count(*) FROM scan_result WHERE run = ?", (scan_run,)).fetchone()[0]
+        finally:
+            con.close()
+        if have >= n:
+            return True
+        if time.monotonic() > deadline:
+            return False
+        await asyncio.sleep(0.002)
+
+
+def record_run_killed(db: Path, run: dict[str, Any], links: list[list[str]]) -> dict[str, Any]:
+    """The run is recorded by ANOTHER process which is killed (SIGKILL) after its last exchange was committed:
+    no disconnect, no checkpoint, the -wal / -shm files stay behind.  `links`: (url, ecu name) pairs the user
+    linked by hand while that process was still alive."""
+    p = subprocess.run([sys.executable, "-m", "harness.c12_lib", "record-and-die", str(db),
+                        json.dumps({"run": run, "links": links})], capture_output=True, text=True, timeout=300)
+    try:
+        rec = json.loads(p.stdout)
+    except ValueError:
+        rec = None
+    if not isinstance(rec, dict) or p.returncode != (-signal.SIGKILL if rec["kept"] else 0):
+        raise RuntimeError(f"recorder process ended with {p.returncode}:\n{p.stdout[-500:]}\n{p.stderr[-2000:]}")
+    return rec
+
+
+def _record_and_die(db: Path, arg: dict[str, Any]) -> None:
+    import logging
+
+    logging.disable(logging.CRITICAL)
+
+    async def go() -> None:
+        rec = await record_run(db, arg["run"], keep=True)
+        rec.pop("handler", None)  # stays connected: this process never gets to disconnect it
+        for url, name in arg["links"]:
+            link_ecu(db, url, name)
+        sys.stdout.write(json.dumps(rec))
+        sys.stdout.flush()
+        if rec["kept"]:
+            os.kill(os.getpid(), signal.SIGKILL)
+
+    asyncio.run(go())
 
 
 def link_ecu(db: Path, url: str, name: str) -> None:
@@ -274,8 +351,25 @@ def link_ecu(db: Path, url: str, name: str) -> None:
         con.close()
 
 
-def read_db(db: Path) -> list[dict[str, Any]]:
-    """Every scan_result row in id order with what the database knows about its run."""
+def snapshot(db: Path, wal: bool = True) -> Path:
+    """A copy of the database files as they are on disk right now (nobody is writing): the main file and, with
+    `wal`, the write-ahead log.  Reading the copy does not disturb the original: an ordinary connection to the
+    original which happens to be the last one to close would fold the log into the main file, i.e. the
+    observation would change the storage state whose replay is to be observed.
+    wal=False: what the main file alone holds (diagnostic / binding self-test only)."""
+    d = Path(tempfile.mkdtemp(prefix="snap-", dir=db.parent))
+    shutil.copy(db, d / db.name)
+    w = db.with_name(db.name + "-wal")
+    if wal and w.exists():
+        shutil.copy(w, d / w.name)
+    return d / db.name
+
+
+def read_db(db: Path, undisturbed: bool = False) -> list[dict[str, Any]]:
+    """Every scan_result row in id order with what the database knows about its run: what an ordinary SQLite
+    reader sees (main file + committed content of the write-ahead log)."""
+    if undisturbed:
+        db = snapshot(db)
     con = sqlite3.connect(db)
     try:
         q = ("SELECT r.id, r.run, r.state, r.request_pdu, r.response_pdu, s.properties_pre, "
@@ -304,17 +398,25 @@ def _state(srv: DBUDSServer) -> dict[str, int]:
 
 
 async def replay_run(db: Path, reqs: list[bytes], ecu: str | None, props: dict[str, Any] | None,
-                     passes: int = 1, mutant: str | None = None) -> list[list[dict[str, Any]]]:
+                     passes: int = 1, mutant: str | None = None, at_req: dict[int, Hook] | None = None
+                     ) -> list[list[dict[str, Any]]]:
     """A fresh DBUDSServer (default state, cursor -1) on `db`, asked `reqs` in order.
-    `mutant` (binding self-test only): "forget-cursor" resets the cursor between requests."""
+    `at_req[i]` is awaited before request i of the first pass (storage family: somebody else closes the database
+    while the virtual ECU is serving).
+    `mutant` (binding self-test only): "forget-cursor" resets the cursor between requests; "main-file-only" is a
+    replay that serves from the main database file alone (a copy made without the write-ahead log)."""
+    if mutant == "main-file-only":
+        db = snapshot(db, wal=False)
     srv = DBUDSServer(db, ecu, props)
     await srv.setup()
     st = UDSServerTransport(srv, TargetURI("tcp-lines://127.0.0.1:1"))
     out = []
     try:
-        for _ in range(passes):
+        for n in range(passes):
             obs = []
-            for r in reqs:
+            for k, r in enumerate(reqs):
+                if n == 0 and at_req and k in at_req:
+                    await at_req[k]()
                 ss = _state(srv)
                 st.last_time_active = time.time()  # requests arrive without bus idle
                 if mutant == "forget-cursor":
@@ -331,24 +433,175 @@ async def replay_run(db: Path, reqs: list[bytes], ecu: str | None, props: dict[s
     return out
 
 
+# --------------------------------------------------------------------------- storage family
+# Where the recording physically sits when the virtual ECU is started.  gallia puts every database into WAL mode
+# (DBHandler.connect), and SQLite folds the write-ahead log into the main file only when the LAST connection
+# closes: a recording made while anybody else has the database open lives (partly) in `<db>-wal` -- and is part of
+# the database for every reader all the same.  A storage spec is
+#   {"kind": one of STORAGE_KINDS, "at": "start" | "before-target" | "mid" | "after-target" | "end",
+#    "release": "end" | "mid-replay"}
+#   viewer           a plain sqlite3 connection which ran one SELECT and is left open (DB browser, sqlite3 shell)
+#   viewer-tx        the same with an open read transaction (a browser that keeps a snapshot)
+#   handler          a second gallia DBHandler, connected and idle (another gallia process on the same file)
+#   recorder-open    the recorder of the recorded run itself has not disconnected (scan still running)
+#   recorder-killed  the recorder of the recorded run was killed after its last exchange was committed
+#   at               when the other party opens the database, relative to the runs recorded into it
+#   release          when it closes: after the replay, or while the virtual ECU is serving
+HOLDERS = ("viewer", "viewer-tx", "handler")
+STORAGE_KINDS = HOLDERS + ("recorder-open", "recorder-killed")
+
+
+class Holder:
+    """Somebody else who has the database open and does nothing with it."""
+
+    def __init__(self, kind: str, db: Path) -> None:
+        self.kind, self.db = kind, db
+        self.con: sqlite3.Connection | None = None
+        self.h: DBHandler | None = None
+
+    async def open(self) -> bool:
+        """False: the database could not be opened next to whoever is writing it (`database is locked`).  Whether
+        a second party can connect is not this property's subject: the case then runs without it."""
+        try:
+            if self.kind == "handler":
+                self.h = DBHandler(self.db)
+                await self.h.connect()
+                return True
+            self.con = sqlite3.connect(self.db, isolation_level=None)
+            if self.kind == "viewer-tx":
+                self.con.execute("BEGIN")
+            self.con.execute("SELECT count(*) FROM sqlite_master").fetchall()
+            return True
+        except sqlite3.Error:
+            await self.close()
+            return False
+
+    async def close(self) -> None:
+        if self.h is not None:
+            h, self.h = self.h, None
+            try:
+                await h.disconnect()
+            except AssertionError:  # connect() failed half way: nothing but the connection exists
+                if h.connection is not None:
+                    await h.connection.close()
+        if self.con is not None:
+            con, self.con = self.con, None
+            con.close()
+
+
+def _once(f: Hook) -> Hook:
+    done = False
+
+    async def g() -> None:
+        nonlocal done
+        if not done:
+            done = True
+            await f()
+
+    return g
+
+
+async def build_db(db: Path, runs: list[dict[str, Any]], ti: int, sto: dict[str, Any] | None,
+                   links: list[list[str]]) -> tuple[list[dict[str, Any]], list[Hook], dict[str, Any]]:
+    """Records `runs` in order into `db` (runs[ti] is the recorded run) under the storage spec `sto`.
+    Returns (one rec per run, what has to be closed once the replay is over,
+    {"linked": links already made, "in_effect": the other party / open recorder really was there})."""
+    kind = sto["kind"] if sto else None
+    at: Any = None
+    if kind in HOLDERS:
+        at = {"start": 0, "before-target": ti, "mid": "mid", "after-target": ti + 1, "end": len(runs)}[sto["at"]]
+        if at == 0 and kind != "handler":
+            at = "mid" if ti == 0 else 1  # a viewer opens a database that exists
+    closers: list[Hook] = []
+    holder: Holder | None = None
+    how = {"linked": False, "in_effect": False}
+
+    async def open_holder() -> None:
+        nonlocal holder
+        holder = Holder(str(kind), db)
+        closers.append(_once(holder.close))
+        how["in_effect"] = await holder.open()
+
+    recs = []
+    try:
+        for i, r in enumerate(runs):
+            hooks: dict[int, Hook] = {}
+            if at == i:
+                await open_holder()
+            elif at == "mid" and i == ti:
+                hooks = {len(r["steps"]) // 2: open_holder}
+            if i == ti and kind == "recorder-open":
+                rec = await record_run(db, r, keep=True)
+                if rec["kept"]:
+                    closers.append(_once(rec.pop("handler").disconnect))
+                how["in_effect"] = rec["kept"]
+            elif i == ti and kind == "recorder-killed":
+                rec = record_run_killed(db, r, links)
+                how["linked"], how["in_effect"] = True, rec["kept"]
+            else:
+                rec = await record_run(db, r, at_step=hooks)
+            recs.append(rec)
+        if at == len(runs):
+            await open_holder()
+    except BaseException:
+        for c in closers:
+            await c()
+        raise
+    return recs, closers, how
+
+
+def storage_state(db: Path, scan_run: int | None, n_rows: int) -> dict[str, Any]:
+    """Diagnostic (evidence / vacuity guard of the family, never a verdict): how much of the recorded run is NOT in
+    the main database file at the moment the virtual ECU is started."""
+    w = db.with_name(db.name + "-wal")
+    con = sqlite3.connect(snapshot(db, wal=False))
+    try:
+        n = con.execute("SELECT count(*) FROM scan_result WHERE run = ?", (scan_run,)).fetchone()[0]
+    except sqlite3.DatabaseError:
+        n = 0  # not even the schema is in the main file
+    finally:
+        con.close()
+    return {"wal_bytes": w.stat().st_size if w.exists() else 0, "target_rows_outside_main_file": n_rows - n}
+
+
+def _release(sto: dict[str, Any] | None, closers: list[Hook], n: int) -> dict[int, Hook] | None:
+    if not sto or sto.get("release") != "mid-replay" or not closers:
+        return None
+
+    async def close_all() -> None:
+        for c in closers:
+            await c()
+
+    return {n // 2: close_all}
+
+
 # --------------------------------------------------------------------------- one case
 async def _run_case(case: dict[str, Any], tmp: Path) -> list[dict[str, Any]]:
     """case = {"id", "target": run, "oob": [...], "layout": None | {"before": [run..], "after": [run..],
-    "selectors": [{"ecu": name|None, "props": {...}|None}, ...]}, "second_pass": bool}
+    "selectors": [{"ecu": name|None, "props": {...}|None}, ...]}, "second_pass": bool,
+    "storage": None | storage spec (see above; applies to the isolated and to the populated database)}
     Returns the replays (one isolated, one per selector on the populated database)."""
     target = case["target"]
+    sto = case.get("storage")
     iso_db = tmp / "iso.sqlite"
-    rec = await record_run(iso_db, target)
-    rows = read_db(iso_db)
-    info = {"n_steps": len(target["steps"]), "n_rows": len(rows), "outcomes": rec["outcomes"],
-            "wire_mismatch": [i for i, (w, r) in enumerate(zip(rec["wire"], rows))
-                              if list(bytes.fromhex(w[0])) != r["req"]
-                              or ([] if w[1] is None else list(bytes.fromhex(w[1]))) != r["rsp"]]}
-    if (len(rows) != len(target["steps"]) and not target.get("tp")) or not rows:
-        return [{"id": case["id"], "skip": "rows-lost-or-empty", "info": info}]
-    reqs = [bytes(r["req"]) for r in rows]
-    obs = await replay_run(iso_db, reqs, None, None, passes=2 if case.get("second_pass") else 1,
-                           mutant=case.get("mutant"))
+    recs, closers, how = await build_db(iso_db, [target], 0, sto, [])
+    try:
+        rec = recs[0]
+        rows = read_db(iso_db, undisturbed=sto is not None)
+        info = {"n_steps": len(target["steps"]), "n_rows": len(rows), "outcomes": rec["outcomes"],
+                "wire_mismatch": [i for i, (w, r) in enumerate(zip(rec["wire"], rows))
+                                  if list(bytes.fromhex(w[0])) != r["req"]
+                                  or ([] if w[1] is None else list(bytes.fromhex(w[1]))) != r["rsp"]]}
+        if sto:
+            info["storage"] = dict(sto, in_effect=how["in_effect"], **storage_state(iso_db, rec["scan_run"], len(rows)))
+        if (len(rows) != len(target["steps"]) and not target.get("tp")) or not rows:
+            return [{"id": case["id"], "skip": "rows-lost-or-empty", "info": info}]
+        reqs = [bytes(r["req"]) for r in rows]
+        obs = await replay_run(iso_db, reqs, None, None, passes=2 if case.get("second_pass") else 1,
+                               mutant=case.get("mutant"), at_req=_release(sto, closers, len(reqs)))
+    finally:
+        for c in closers:
+            await c()
     base = [o["rep"] for o in obs[0]]
     out = [{"id": case["id"], "kind": "iso", "oob": [i + 1 for i in target.get("oob", [])],
             "sel": {"ecu": "", "props": []}, "rows": rows, "tgt": [r["id"] for r in rows],
@@ -356,32 +609,40 @@ async def _run_case(case: dict[str, Any], tmp: Path) -> list[dict[str, Any]]:
     lay = case.get("layout")
     if lay:
         pop_db = tmp / "pop.sqlite"
-        run_url: dict[int, str] = {}
-        for r in lay.get("before", []):
-            run_url[(await record_run(pop_db, r))["scan_run"]] = r["url"]
-        rec2 = await record_run(pop_db, target)
-        run_url[rec2["scan_run"]] = target["url"]
-        for r in lay.get("after", []):
-            run_url[(await record_run(pop_db, r))["scan_run"]] = r["url"]
-        url_name: dict[str, str] = {}
-        for r in lay.get("before", []) + [target] + lay.get("after", []):
-            if r.get("ecu_name"):
-                link_ecu(pop_db, r["url"], r["ecu_name"])
-                url_name[r["url"]] = r["ecu_name"]
-        prow = read_db(pop_db)
-        # ground truth of "which ECU was this run recorded against" is what the harness did (the URL each run
-        # used and the name the user linked to that URL), not what the database still says about it
-        for row in prow:
-            row["ecu"] = url_name.get(run_url.get(row["run"], ""), "")
-        tgt = [r["id"] for r in prow if r["run"] == rec2["scan_run"]]
-        same = [(prow[i - 1]["req"], prow[i - 1]["rsp"], prow[i - 1]["st"]) for i in tgt] == \
-               [(r["req"], r["rsp"], r["st"]) for r in rows]
-        for k, s in enumerate(lay["selectors"]):
-            o = await replay_run(pop_db, reqs, s.get("ecu"), s.get("props"))
-            out.append({"id": f"{case['id']}/s{k}", "kind": "pop", "oob": [i + 1 for i in target.get("oob", [])],
-                        "sel": {"ecu": s.get("ecu") or "", "props": props_abs(s.get("props"))},
-                        "rows": prow, "tgt": tgt, "obs": o[0], "obs2": [], "base": base if same else [],
-                        "info": {"rerecorded_identically": same, "selector": s}})
+        runs = lay.get("before", []) + [target] + lay.get("after", [])
+        ti = len(lay.get("before", []))
+        url_name: dict[str, str] = {r["url"]: r["ecu_name"] for r in runs if r.get("ecu_name")}
+        recs, closers, how = await build_db(pop_db, runs, ti, sto, [[u, n] for u, n in url_name.items()])
+        try:
+            run_url: dict[int, str] = {rc["scan_run"]: r["url"] for rc, r in zip(recs, runs)}
+            rec2 = recs[ti]
+            if not how["linked"]:
+                for u, n in url_name.items():
+                    link_ecu(pop_db, u, n)
+            prow = read_db(pop_db, undisturbed=sto is not None)
+            # ground truth of "which ECU was this run recorded against" is what the harness did (the URL each run
+            # used and the name the user linked to that URL), not what the database still says about it
+            for row in prow:
+                row["ecu"] = url_name.get(run_url.get(row["run"], ""), "")
+            tgt = [r["id"] for r in prow if r["run"] == rec2["scan_run"]]
+            same = [(prow[i - 1]["req"], prow[i - 1]["rsp"], prow[i - 1]["st"]) for i in tgt] == \
+                   [(r["req"], r["rsp"], r["st"]) for r in rows]
+            sinfo = dict(sto, in_effect=how["in_effect"], **storage_state(pop_db, rec2["scan_run"], len(tgt))) \
+                if sto else None
+            for k, s in enumerate(lay["selectors"]):
+                last = k == len(lay["selectors"]) - 1
+                o = await replay_run(pop_db, reqs, s.get("ecu"), s.get("props"), mutant=case.get("mutant"),
+                                     at_req=_release(sto, closers, len(reqs)) if last else None)
+                pinfo: dict[str, Any] = {"rerecorded_identically": same, "selector": s}
+                if sinfo:
+                    pinfo["storage"] = sinfo
+                out.append({"id": f"{case['id']}/s{k}", "kind": "pop", "oob": [i + 1 for i in target.get("oob", [])],
+                            "sel": {"ecu": s.get("ecu") or "", "props": props_abs(s.get("props"))},
+                            "rows": prow, "tgt": tgt, "obs": o[0], "obs2": [], "base": base if same else [],
+                            "info": pinfo})
+        finally:
+            for c in closers:
+                await c()
     return out
 
 
@@ -419,3 +680,10 @@ def run_cases(cases: list[dict[str, Any]], pool: Any = None) -> list[dict[str, A
 
 def rnd(seed: int, *tags: Any) -> random.Random:
     return random.Random("|".join(str(x) for x in (seed, *tags)))
+
+
+if __name__ == "__main__":
+    if len(sys.argv) == 4 and sys.argv[1] == "record-and-die":
+        _record_and_die(Path(sys.argv[2]), json.loads(sys.argv[3]))
+    else:
+        sys.exit("usage: python -m harness.c12_lib record-and-die <db> <json>")
